@@ -180,7 +180,7 @@ func c13Run(c *Ctx) {
 	what := fmt.Sprintf("packet len=%d container=%d entry=%s reader=%s delivery=%s long=%v", len(pkt), container, e.Name, harness.RKNames[rk], d, hasLong)
 	c.Descf("%s", what)
 	c.Descf("properties: %s", strings.Join(names, " "))
-	if c.Describe && len(pkt) <= 1500 {
+	if c.Describe && len(pkt) <= 6000 {
 		c.Descf("packet=%q", pkt)
 	}
 	harness.LogDefault()
@@ -239,6 +239,10 @@ func c13Run(c *Ctx) {
 		sa.AllAttr, se.AllElem = true, true
 		pa, pe := rec.Serialise(g, sa), rec.Serialise(g, se)
 		ep := harness.EntryByName("xmp.ParseXmp")
+		if c.Describe && len(pa) <= 1500 {
+			c.Descf("attr-twin=%q", pa)
+			c.Descf("elem-twin=%q", pe)
+		}
 		harness.Pristine()
 		ra := invoke(c, ep, &harness.Env{RK: rk}, newReader(c.Dev, pa, Fault{}, d))
 		harness.Pristine()
